@@ -1157,7 +1157,11 @@ def _create_dataclass_instance(
     # None.
     # TODO: (BUG!) This doesn't distinguish the case where the defaults are passed via the
     # command-line from the case where no arguments are passed at all!
-    if wrapper.optional and wrapper.default is None:
+    if (
+        wrapper.optional
+        and wrapper.default is None
+        and all(default in (None, argparse.SUPPRESS) for default in wrapper.defaults)
+    ):
         for field_wrapper in wrapper.fields:
             arg_value = constructor_args[field_wrapper.name]
             default_value = field_wrapper.default
